@@ -29,14 +29,17 @@ def train_scenario(ctx, i):
     r = ctx.rng
     C, D, N = gen.dims(ctx, cmax_q=3, dmax_q=3, nmax_q=40, cmax_t=4, dmax_t=4, nmax_t=120)
     N = max(N, 4 * C + 2)
-    w, m, v, sc = gen.gmm_params(r, C, D, scales=np.ones(D) * 10.0 ** r.choice([-2, 0, 0, 2]))
+    other_dtype = bool(r.random() < 0.3)  # other legal dtypes of the training array (same values for the model); needs data spread over several units
+    w, m, v, sc = gen.gmm_params(r, C, D, scales=np.ones(D) * (100.0 if other_dtype else 10.0 ** r.choice([-2, 0, 0, 2])))
     x = gen.sample_data(r, w, m, v, N)
+    if other_dtype:
+        x = gen.maybe_int(r, x, p=1.0)
     # start away from the generating parameters so that EM has work to do
     w0 = r.dirichlet(np.full(C, 5.0))
     m0 = m + r.normal(size=m.shape) * np.sqrt(v) * 0.7
     v0 = v * np.exp(r.uniform(-0.7, 0.7, size=v.shape))
     um, uv, uw = SWITCHES[i % 8]
-    return dict(C=C, D=D, w=w0, m=m0, v=v0, x=x, um=um, uv=uv, uw=uw, thr=gen.EPS, floor=gen.EPS)
+    return dict(C=C, D=D, w=w0, m=m0, v=v0, x=x, x_dtype=str(np.asarray(x).dtype), um=um, uv=uv, uw=uw, thr=gen.EPS, floor=gen.EPS)
 
 
 def mk(sc, **kw):
@@ -271,7 +274,8 @@ def oracle_monotone(sc, steps=4):
     import dask.array as da
 
     x = np.asarray(sc["x"], dtype=float)
-    xin = da.from_array(x, chunks=(tuple(sc["chunks"]), x.shape[1])) if sc.get("chunks") else x
+    xraw = np.asarray(sc["x"]).astype(sc.get("x_dtype", "float64"))  # training sees the array in the dtype it was handed over in
+    xin = da.from_array(xraw, chunks=(tuple(sc["chunks"]), x.shape[1])) if sc.get("chunks") else xraw
     how = f" (Dask, row chunks {tuple(sc['chunks'])})" if sc.get("chunks") else ""
     cur = {k: np.asarray(sc[k], dtype=float) for k in ("w", "m", "v")}
     for it in range(steps):
@@ -285,6 +289,11 @@ def oracle_monotone(sc, steps=4):
         res = core.impl(lambda: params_of(g.fit(xin)))
         if isinstance(res, core.ImplError):
             return {"sig": "fit-raises", "what": repr(res)}
+        if xraw.dtype != np.float64 and it == 0:
+            # the same values handed over as float64 must give the same EM step (the step is a function of the values)
+            ref = core.impl(lambda: params_of(mk(s, max_fitting_steps=1, convergence_threshold=None).fit(x)))
+            if not isinstance(ref, core.ImplError) and not all(core.close(res[k], ref[k], 1e-6, 1e-9 * float(np.max(np.abs(ref[k])))) for k in ref):
+                return {"sig": "em-step-depends-on-array-dtype", "what": f"one EM step on {xraw.dtype} data{how}: variances {np.asarray(res['v']).tolist()} vs {np.asarray(ref['v']).tolist()} on the same values as float64"}
         if not all(np.all(np.isfinite(res[k])) for k in res) or np.any(res["v"] <= 10 * sc.get("floor", gen.EPS)):
             return None  # a floor is active (or C13's business)
         after = avg_ll(res, x)
@@ -317,7 +326,8 @@ def oracle_stop(sc, cap, thr, use_dask=False, sizes=None):
     import dask.array as da
 
     x = np.asarray(sc["x"], dtype=float)
-    xin = da.from_array(x, chunks=(tuple(sizes), x.shape[1])) if use_dask else x
+    xraw = np.asarray(sc["x"]).astype(sc.get("x_dtype", "float64"))
+    xin = da.from_array(xraw, chunks=(tuple(sizes), x.shape[1])) if use_dask else xraw
     full, _ = run_fit(sc, xin, cap, None)
     if isinstance(full, core.ImplError):
         return {"sig": "fit-does-not-terminate" if full.kind == "DoesNotTerminate" else "fit-raises", "what": f"max_fitting_steps={cap}, no threshold: {full!r}"}
@@ -344,7 +354,7 @@ def search(ctx):
         ctx.case(["mono", core.tolist(sc["x"]), i % 8, sc["chunks"]], nontrivial=True)
         f = oracle_monotone(sc)
         if f:
-            f["input"] = {k: sc[k] for k in ("w", "m", "v", "x", "um", "uv", "uw", "thr", "floor", "chunks")}
+            f["input"] = {k: sc[k] for k in ("w", "m", "v", "x", "x_dtype", "um", "uv", "uw", "thr", "floor", "chunks") if k in sc}
             f["oracle"] = "monotone"
             fails.append(f)
             break
@@ -367,7 +377,7 @@ def search(ctx):
                 ctx.count("search:stop")
                 ctx.case(["stop", core.tolist(sc["x"]), cap, thr, use_dask], nontrivial=True)
                 if f:
-                    f["input"] = {**{k: sc[k] for k in ("w", "m", "v", "x", "um", "uv", "uw", "thr", "floor")}, "cap": cap, "conv_thr": thr, "dask": use_dask, "sizes": sizes}
+                    f["input"] = {**{k: sc[k] for k in ("w", "m", "v", "x", "x_dtype", "um", "uv", "uw", "thr", "floor") if k in sc}, "cap": cap, "conv_thr": thr, "dask": use_dask, "sizes": sizes}
                     f["oracle"] = "stop"
                     fails.append(f)
                     break
